@@ -599,7 +599,11 @@ func classify(eng *Engine, g *OblGroup, prop string, findings []Finding, lock ma
 		}
 	}
 	// the function was verified through a helper without contract that could not be handled exactly: undecided
-	if rep := failing[0].rep; rep != nil && len(rep.Imprecise) > 0 && !g.Instances[0].obl.Cover && !strings.HasPrefix(g.Kind, "frame:global") && g.Kind != "order:maprange" {
+	// (only when the function lost a loop against the recorded tree, i.e. the helper may hold code that was extracted from
+	// it together with the loop its invariants spoke about, or when the helper could not be inlined at all; a helper with a
+	// loop that was *added* next to the function's unchanged loops is new code: its result is unconstrained, which is a
+	// sound over-approximation, and what fails then fails for the added behaviour)
+	if rep := failing[0].rep; rep != nil && impreciseUndecided(rep) && !g.Instances[0].obl.Cover && !strings.HasPrefix(g.Kind, "frame:global") && g.Kind != "order:maprange" {
 		g.Status = "undecided"
 		res.Undecided = append(res.Undecided, fmt.Sprintf("obligation=%s reason=not discharged (%s); the function calls %s - it needs a contract before this can be decided", g.Name, failing[0].job.res.Status, strings.Join(rep.Imprecise, "; ")))
 		return
@@ -862,3 +866,21 @@ func writeEvidence(vdir, prop, tier string, seed int, res *CheckResult, wall flo
 }
 
 func round3(f float64) float64 { return float64(int(f*1000+0.5)) / 1000 }
+
+
+// impreciseUndecided: failing obligations of a function that was verified through a contract-less helper are undecided if
+// the helper could not be inlined, or if the function lost a loop (extraction of a loop into the helper).
+func impreciseUndecided(rep *FuncReport) bool {
+	if len(rep.Imprecise) == 0 {
+		return false
+	}
+	if rep.LoopsLost {
+		return true
+	}
+	for _, w := range rep.Imprecise {
+		if !strings.Contains(w, "inlined, its loops havocked") {
+			return true
+		}
+	}
+	return false
+}
